@@ -4,10 +4,10 @@ from props import repo_common, ops_common
 
 def run(ctx):
     p, hs, r = ops_common.gen_histories(ctx, "copy", ctx.pick(8, 200))
-    scripted = ops_common.gen_scripted(ctx)
+    scripted = ops_common.gen_scripted(ctx) + ops_common.gen_scripted(ctx, "copyorig", always=("rewrite:0",))
     import json
     hs = scripted + hs
     json.dump(hs, open(p, "w"))
     out = ctx.go_test("cmd/restic", "^TestVerif_C32$", timeout=3300, env={"VERIF_HISTORIES": p}, tags=["c32", "c39", "common"])
     return repo_common.finish_trace(ctx, out, "model_checking",
-                                    extra_cov={"histories_generated_by_tlc": len(hs), "scripted_histories_enumerated_by_tlc": len(scripted), "generator": "RepoOps.tla -simulate, family copy; scripted family copydst (destination maintenance between copies) enumerated by BFS"})
+                                    extra_cov={"histories_generated_by_tlc": len(hs), "scripted_histories_enumerated_by_tlc": len(scripted), "generator": "RepoOps.tla -simulate, family copy; scripted families copydst (destination maintenance between copies) and copyorig (snapshots sharing an Original) enumerated by BFS"})
